@@ -43,24 +43,47 @@ class World:
                         "r_pub_hex": rpub, "tag": tag, "out": os.path.join(self.dir, tag + ".ktl")})
         ops.append({"op": "specfile", "api": "pass", "chunks": [65536, 1000], "pseed": 9, "password_hex": b"file-pw".hex(),
                     "tag": "pw", "out": os.path.join(self.dir, "pw.ktl")})
+        # further plaintext sizes for successful runs: empty, and exactly one full chunk
+        for sz, chunks in (("empty", [0]), ("exact", [65536])):
+            ops.append({"op": "specfile", "api": "key", "chunks": chunks, "pseed": 11, "s_priv_hex": self.keys["alice"]["sk_hex"],
+                        "r_pub_hex": self.keys["bob"]["pk_hex"], "tag": "k" + sz, "out": os.path.join(self.dir, "k%s.ktl" % sz)})
+            ops.append({"op": "specfile", "api": "pass", "chunks": chunks, "pseed": 11, "password_hex": b"file-pw".hex(),
+                        "tag": "p" + sz, "out": os.path.join(self.dir, "p%s.ktl" % sz)})
         cli.driver_ops(pid, tpl, ops, seed, "world")
+        rd = lambda n: open(os.path.join(self.dir, n), "rb").read()
+        self.sizes = {sz: {"plain": rd("k%s.ktl.plain" % sz), "ckey": rd("k%s.ktl" % sz), "cpass": rd("p%s.ktl" % sz)}
+                      for sz in ("empty", "exact")}
+        assert len(self.sizes["empty"]["plain"]) == 0 and len(self.sizes["exact"]["plain"]) == 65536
         self.P2 = open(os.path.join(self.dir, "tobob.ktl.plain"), "rb").read()
         self.ckey = open(os.path.join(self.dir, "tobob.ktl"), "rb").read()
         self.ckey_carol = open(os.path.join(self.dir, "tocarol.ktl"), "rb").read()
         self.cpass = open(os.path.join(self.dir, "pw.ktl"), "rb").read()
 
-    def keyring(self, sender_pos="first", bob_private=True, alice_private=True, with_lo=True):
+    def fillers(self, n=400):
+        """n further public-key entries (random keys, distinct names): 'forall keyrings' includes large ones, and the
+        sender look-up has to pick the one entry whose key EQUALS the authenticated key among many others."""
+        import hashlib
+        import random
+        rnd = random.Random(self.seed * 7919 + 13)
+        out = ""
+        for i in range(n):
+            pk = bytes(rnd.getrandbits(8) for _ in range(32))
+            enc = base64.b64encode(pk + hashlib.sha256(pk).digest()[:4]).decode()
+            out += "[Key]\nName = filler %d\nPublicKey = %s\n\n" % (i, enc)
+        return out
+
+    def keyring(self, sender_pos="first", bob_private=True, alice_private=True, with_lo=True, fill=True):
         k = self.keys
         ents = []
         alice = ("alice", k["alice"], alice_private)
         others = [("bob", k["bob"], bob_private), ("carol", k["carol"], True)]
+        filler = self.fillers() if fill else ""
         if sender_pos == "first":
-            ents = [alice] + others
+            text = cli.keyring_text([alice] + others) + filler
         elif sender_pos == "last":
-            ents = others + [alice]
+            text = cli.keyring_text(others) + filler + cli.keyring_text([alice])
         else:
-            ents = others
-        text = cli.keyring_text(ents)
+            text = cli.keyring_text(others) + filler
         if with_lo:
             text += "[Key]\nName = lo\nPublicKey = %s\n" % self.lo_enc
         return text
@@ -89,7 +112,7 @@ def corrupt(data, cause, hdr):
     return bytes(b)
 
 
-def run_config(w, c, idx):
+def run_config(w, c, idx, psize=None):
     """Concretise one configuration of CliContract, run the real binary, classify the outcome."""
     cmd, cause = c["cmd"], c["cause"]
     lng, alias = c["long"], c["alias"]
@@ -100,16 +123,24 @@ def run_config(w, c, idx):
         out_path = sb.path("out.bin")
         # ---- input ----
         expected_full = None
+        # successful runs rotate over plaintext sizes: two chunks, empty, exactly one full chunk
+        if psize is None:
+            psize = ("two", "empty", "exact")[idx % 3] if (cause == "none" and cmd != "key_generate") else "two"
+        plain = w.P2 if psize == "two" else w.sizes[psize]["plain"]
         if cmd == "decrypt":
             data = w.ckey_carol if cause == "wrong_recipient" else (w.cpass if cause == "other_mode_file" else w.ckey)
+            if psize != "two":
+                data = w.sizes[psize]["ckey"]
             data = corrupt(data, cause, 132)
-            expected_full = w.P2
+            expected_full = plain
         elif cmd == "pass_decrypt":
             data = w.ckey if cause == "other_mode_file" else w.cpass
+            if psize != "two":
+                data = w.sizes[psize]["cpass"]
             data = corrupt(data, cause, 36)
-            expected_full = w.P2
+            expected_full = plain
         elif cmd in ("encrypt", "pass_encrypt"):
-            data = w.P2
+            data = plain
         else:
             data = b"newname\n" if cause != "empty_name" else b"\n"
         in_path = sb.path("in.bin")
@@ -194,7 +225,7 @@ def run_config(w, c, idx):
         elif c["outp"] == "file":
             got = sb.read("out.bin")
         else:
-            got = r.out if r.out else None
+            got = r.out if (r.out or (r.rc == 0 and expected_full == b"")) else None
         if got == b"n/a":
             out = "n/a"
         elif got is None:
@@ -206,7 +237,7 @@ def run_config(w, c, idx):
         elif cmd in ("encrypt", "pass_encrypt"):
             sb.write("produced.ktl", got)
             op = {"op": "golden", "id": "x", "api": "key" if cmd == "encrypt" else "pass", "path": sb.path("produced.ktl"),
-                  "plain_hex": w.P2.hex()}
+                  "plain_hex": plain.hex()}
             if cmd == "encrypt":
                 op.update({"r_priv_hex": w.keys["bob"]["sk_hex"], "s_pub_hex": w.keys["alice"]["pk_hex"]})
             else:
@@ -241,13 +272,13 @@ def run_config(w, c, idx):
                 named = "unknown" if u.group(1) == w.keys["alice"]["pub_enc"] and c["sender"] == "absent" else "wrong_unknown"
             else:
                 named = "nothing"
-        return {"ev": "cli", "id": "cfg%d" % idx, "cfg": c, "args": [a if not a.startswith(sb.dir) else os.path.basename(a) for a in args],
+        return {"ev": "cli", "id": "cfg%d" % idx, "cfg": c, "psize": psize, "args": [a if not a.startswith(sb.dir) else os.path.basename(a) for a in args],
                 "exit": r.rc, "errline": r.has_error_line, "out": out, "named": named, "stderr": errt[-300:]}
 
 
-def run_configs(rep, pid, name, w, configs, only_prefixes):
+def run_configs(rep, pid, name, w, configs, only_prefixes, psize=None):
     with cf.ThreadPoolExecutor(max_workers=NCPU) as ex:
-        evs = list(ex.map(lambda ic: run_config(w, ic[1], ic[0]), list(enumerate(configs))))
+        evs = list(ex.map(lambda ic: run_config(w, ic[1], ic[0], psize), list(enumerate(configs))))
     wd = workdir(pid, "run-" + name, clean=True)
     tp = os.path.join(wd, "trace.ndjson")
     write_jsonl(tp, evs)
@@ -703,13 +734,14 @@ def c09(pid, tier, seed, selftest=False):
         if k in ("mutate", "lenfield"):
             lens = set(range(0, 24 if not thorough else 64))
         if k == "insert":
-            lens = set(range(0, 130, 1 if thorough else 3)) if s != "keyring" else set(range(0, 250, 2 if thorough else 7))
+            # the keyring text is parsed cheaply: every position of it, every foreign character
+            lens = set(range(0, 130, 1 if thorough else 3)) if s != "keyring" else set(range(0, 260))
         if s == "keyring" and k == "lines":
             lens = set(range(0, 400 if thorough else 120))
         for n in sorted(lens):
             ks = [0] if k not in ("prefix_then_random", "lenfield", "insert") else ([0, 1, 15, 16] if k == "prefix_then_random" else [0, 1])
             if k == "insert":
-                ks = list(range(9)) if (thorough or s != "encoded_sk") else [0, 1, 2, 4]
+                ks = list(range(13 if s == "keyring" else 9)) if (thorough or s != "encoded_sk") else [0, 1, 2, 4]
             for kk in ks:
                 scen.append({"op": "fuzz", "surface": s, "kind": k, "n": n, "k": kk, "id": "%s.%s.%d.%d" % (s, k, n, kk)})
     if thorough:
